@@ -82,6 +82,28 @@ type FS struct {
 	deaths   []Death
 	notes    []Note
 	tempSeq  uint32
+	// mounts: directories that are file systems of their own (Mount): rename
+	// and link across a mount boundary fail with EXDEV.
+	mounts []string
+}
+
+// Mount declares dir (an absolute, clean path) a file system of its own.
+func (f *FS) Mount(dir string) {
+	f.mu.Lock()
+	defer f.mu.Unlock()
+	f.mounts = append(f.mounts, strings.TrimRight(dir, "/"))
+}
+
+// devOf is the index of the longest mount point path lies under (-1: the root
+// file system).
+func (f *FS) devOf(path string) int {
+	best, bestLen := -1, -1
+	for i, m := range f.mounts {
+		if (path == m || strings.HasPrefix(path, m+"/")) && len(m) > bestLen {
+			best, bestLen = i, len(m)
+		}
+	}
+	return best
 }
 
 // New returns an empty disk: just "/" (mode 0755).
@@ -645,6 +667,8 @@ func (f *FS) Rename(oldname, newname string) error {
 		errno = ro.missing()
 	case rn.long:
 		errno = syscall.ENAMETOOLONG
+	case len(f.mounts) > 0 && f.devOf(ro.path) != f.devOf(rn.path):
+		errno = syscall.EXDEV
 	case (oldSlash || newSlash) && !ro.n.isDir():
 		errno = syscall.ENOTDIR
 	case rn.n == ro.n:
